@@ -562,6 +562,11 @@ def check_case(prop, sp, col, shard, n_hist, depth, seed_parts):
                                                      for d in p0.gp._conn_choice_data_map.values()}))}
         except Exception:  # noqa
             pass
+    if 'con_unordered_norepl' in flags:
+        try:
+            emit.ctx['norepl_unreduced_all_permanent'] = common.norepl_unreduced_all_permanent(B.build(sp).dsg)
+        except Exception:  # noqa
+            pass
     rnd = gen.rng_for('histops', *seed_parts)
     total = 0
     did = False
